@@ -8,7 +8,6 @@ package main
 //    created in the same function (go/types), emitted as a Coq list with the obligation "= []".
 
 import (
-	"time"
 	"encoding/json"
 	"fmt"
 	"go/ast"
@@ -22,11 +21,12 @@ import (
 	"sort"
 	"strings"
 	"sync"
+	"time"
 
 	anko "github.com/mattn/anko/ast"
 	"github.com/mattn/anko/env"
-	ankoparser "github.com/mattn/anko/parser"
 	_ "github.com/mattn/anko/packages"
+	ankoparser "github.com/mattn/anko/parser"
 	"github.com/mattn/anko/vm"
 )
 
@@ -265,6 +265,29 @@ func c14Isolation() []string {
 			problems = append(problems, fmt.Sprintf("a member replaced through one import expression is replaced for another import: %v %v", v, err))
 		}
 	}
+	// copies of one prepared template (the host binds nil and a number in it) stay separate also for stores through pointers
+	for _, deep := range []bool{false, true} {
+		tmpl := env.NewEnv()
+		tmpl.Define("tn", nil)
+		tmpl.Define("ti", int64(1))
+		mk := func() *env.Env {
+			if deep {
+				return tmpl.NewEnv().DeepCopy()
+			}
+			return tmpl.Copy()
+		}
+		c1, c2 := mk(), mk()
+		run(c1, "p = &tn; *p = 5; q = &ti; *q = 6")
+		for _, name := range []string{"tn", "ti"} {
+			want := map[string]string{"tn": "<nil>", "ti": "1"}[name]
+			if v, _ := run(c2, name); fmt.Sprint(v) != want {
+				problems = append(problems, fmt.Sprintf("copies of one template (deep=%v): a store through &%s in one copy shows in another copy: %v", deep, name, v))
+			}
+			if v, _ := run(tmpl, name); fmt.Sprint(v) != want {
+				problems = append(problems, fmt.Sprintf("copies of one template (deep=%v): a store through &%s in a copy shows in the template: %v", deep, name, v))
+			}
+		}
+	}
 	// a package table may hold addressable entries (env.NilValue, which env.go names as the value to register for nil, is one):
 	// what a script stores through a pointer to such a member stays in its own import
 	nilBefore := fmt.Sprint(env.NilValue.Interface())
@@ -484,7 +507,9 @@ func vmAstWrites(repo string) ([]astWrite, error) {
 			files = append(files, f)
 		}
 	}
-	sort.Slice(files, func(i, j int) bool { return fset.Position(files[i].Pos()).Filename < fset.Position(files[j].Pos()).Filename })
+	sort.Slice(files, func(i, j int) bool {
+		return fset.Position(files[i].Pos()).Filename < fset.Position(files[j].Pos()).Filename
+	})
 	info := &types.Info{Types: map[ast.Expr]types.TypeAndValue{}, Defs: map[*ast.Ident]types.Object{}, Uses: map[*ast.Ident]types.Object{}}
 	conf := types.Config{Importer: importer.ForCompiler(fset, "source", nil), Error: func(error) {}}
 	conf.Check("github.com/mattn/anko/vm", fset, files, info)
@@ -604,7 +629,7 @@ func vmAstWrites(repo string) ([]astWrite, error) {
 							// runInfo.expr.SetPosition on an expression assigned from a fresh literal just before
 							out = append(out, astWrite{Pos: fset.Position(s.Pos()).String(), Func: fd.Name.Name,
 								Target: "SetPosition on " + types.ExprString(sel.X),
-								Fresh: (ro != nil && fresh[ro]) || freshExpr[types.ExprString(sel.X)]})
+								Fresh:  (ro != nil && fresh[ro]) || freshExpr[types.ExprString(sel.X)]})
 						}
 					}
 				}
@@ -637,7 +662,9 @@ func pkgStateWrites(repo, rel string) ([]string, error) {
 			files = append(files, f)
 		}
 	}
-	sort.Slice(files, func(i, j int) bool { return fset.Position(files[i].Pos()).Filename < fset.Position(files[j].Pos()).Filename })
+	sort.Slice(files, func(i, j int) bool {
+		return fset.Position(files[i].Pos()).Filename < fset.Position(files[j].Pos()).Filename
+	})
 	info := &types.Info{Types: map[ast.Expr]types.TypeAndValue{}, Defs: map[*ast.Ident]types.Object{}, Uses: map[*ast.Ident]types.Object{}}
 	conf := types.Config{Importer: importer.ForCompiler(fset, "source", nil), Error: func(error) {}}
 	pkg, _ := conf.Check("github.com/mattn/anko/"+rel, fset, files, info)
